@@ -28,6 +28,8 @@ TAILS = [
     ("string_ending_in_escaped_backquote", "`a\\``", 1),
     ("string_ending_in_escaped_backslash", "`a\\\\`", 1),
     ("char", "\\a", 0), ("codepage", "⁺a", 0),
+    ("string_ending_in_newline", "`a\n`", 1), ("newline_element", "+\n", 0), ("char_newline", "\\\n", 0), ("comment", "+#c\n", 0),
+    ("space", "+ ", 0),
 ]
 
 
